@@ -1,9 +1,14 @@
 ID = 'C18'
 ENTRY = dict(
     props_v='Props/C18.v', harness='c18',
-    level_text='TBD',
-    level_note='TBD',
-    technique='Coq proof over the specification monitor (OMap) and the node-level model (Btree); probe-heavy K2 differential check',
-    trusted_base=['modelled: btree.Btree over an in-memory NodeRepository with shared node pointers'],
-    assumptions=['keys are int with the built-in comparer'],
+    level_text=('FULL (unbounded, every item list reachable by an accepted run and every probe key) on the specification OMap: C18_find_first (hit: least index with the key; miss: cursor adjacent to the insertion point, everything before smaller, everything from it on greater), C18_find_descending (greatest index / adjacent), C18_find_with_id (true => on the item with that id; the stored pair is always found; missing key fails), C18_range and C18_range_desc (Range(from,to) = the stored items with from <= key <= to in order, RangeDesc its reverse, for every list and every bounds), C18_btree_results (transfer to the node-level model on every run where sim_run holds). PARTIAL: C18_find_any_partial (Find(k,false) = "an item with that key", hypothesis: cursor not on an emptied slot). REFUTED: C18_find_any_refuted (Find(0,false) = true on an absent key after an Add left the cursor on a slot emptied by a split), C18_find_with_id_refuted (an id stored under a greater key is accepted). BOUNDED: C18_bounded_L2_mixed_5. The node-level refinement itself is C17_refines_partial + bounded (see C17). Tie: as C17 (K2 structural after every call, digest recomputed in Coq, monitor run in Coq), with probe-heavy sequences: Find / FindInDescendingOrder / FindWithID / Range / RangeDesc with keys before, between, after and on heavily duplicated keys, plus an exhaustive probe-pair corpus for slot lengths 2, 4, 8.'),
+    level_note=('Trusted: as C17 (hand transcription Btree.v tied by the differential check, Coq kernel + vm_compute, harness). The cursor on a miss and the choice among equal keys for Find(key,false) are structure-dependent: the specification takes them from the observed outcome and checks admissibility (adjacent to the insertion point / an item with the key).'),
+    technique='Coq proofs over the specification monitor (lower/upper bound lemmas, filter characterisation of ranges), transfer through the refinement statement, vm_compute witnesses; probe-heavy K2 structural differential check',
+    trusted_base=[
+        'modelled by hand: node.find / findInDescendingOrder / moveToNext / moveToPrevious incl. nil children, Btree.Find* and inmemory Range/RangeDesc in coq/theories/Btree.v',
+        'the refinement Btree.v -> OMap.v is checked on every explored run and bounded sequences, not proved by induction (C17_refines_partial)',
+        'digest comparison: 32-bit djb2 per call',
+    ],
+    assumptions=['keys are int with the built-in comparer', 'single goroutine, in-memory repositories'],
+    search_rounds=1,
 )
